@@ -66,7 +66,7 @@ def cases(rng, budget, widx, nworkers, tier):
                 script.append(["c", rng.randrange(11)])
             else:
                 script.append(["mv", rng.randrange(11), [rng.randint(-8, 8) for _ in range(3)], rng.random() < 0.5])
-        yield {"pg": pg, "ph": ph, "pts": pts, "vecs": vecs, "script": script, "probes": [[rng.choice(QUERIES), rng.randrange(11), rng.randrange(11)] for _ in range(6)]}
+        yield {"pg": pg, "ph": ph, "pts": pts, "vecs": vecs, "script": script, "flips": rng.getrandbits(len(ph[2])), "probes": [[rng.choice(QUERIES), rng.randrange(11), rng.randrange(11)] for _ in range(6)]}
 
 
 class World:
@@ -77,7 +77,9 @@ class World:
         self.s = [P(p) for p in case["pts"]]                       # shared points
         self.v = [V(p) for p in case["vecs"]]                      # shared vectors
         self.pgpts = [P(p) for p in case["pg"][1]]                 # shared polygon vertices
-        self.faces = [G.ConvexPolygon(tuple(P(p) for p in f)) for f in case["ph"][2]]   # shared face polygons
+        flips = case.get("flips", 0)
+        # shared face polygons, handed over in arbitrary orientation (bit j set: cycle reversed => normal points inwards)
+        self.faces = [G.ConvexPolygon(tuple(P(p) for p in (f[::-1] if (flips >> j) & 1 else f))) for j, f in enumerate(case["ph"][2])]
         s, v = self.s, self.v
         self.pool = [
             P(case["pts"][0]),
